@@ -168,6 +168,10 @@ func Run(a RunArgs) int {
 	os.Setenv("VERIF_SCRATCH", tmp)
 	if os.Getenv("VERIF_COVER") != "" {
 		cd := filepath.Join(tmp, "cov")
+		if keep := os.Getenv("VERIF_COVER_KEEP"); keep != "" {
+			// development aid: keep the raw counters of this run (merged later with "go tool covdata")
+			cd = filepath.Join(keep, a.Prop)
+		}
 		_ = os.MkdirAll(cd, 0o755)
 		os.Setenv("VERIF_COVERDIR", cd)
 		os.Setenv("GOCOVERDIR", cd)
